@@ -3,6 +3,7 @@ import CanvasProofs.Lemmas.C18Sub
 import CanvasProofs.Lemmas.C18W
 import CanvasProofs.Lemmas.C18TU
 import CanvasProofs.Lemmas.C18TJ
+import CanvasProofs.Lemmas.C18Content
 import Mathlib.Tactic.Linarith
 import Mathlib.Tactic.Ring
 
@@ -286,5 +287,201 @@ theorem toPath_point_count (f x y : Int) (gs : List (G × List (Int × Int))) :
   | cons go gs ih =>
     obtain ⟨g, o⟩ := go
     simp [toPathPts, glyphPts, ih]
+
+/-! ## (g) glyph codes in content streams: escaped literal strings read back byte for byte -/
+
+/-- For every list of codes: a §7.3.4.2 reader that has consumed `(` reads the written bytes up to the
+closing parenthesis as exactly the big-endian code bytes, and stops right behind it. -/
+theorem content_string_roundtrip (cs rest : List Nat) :
+    readLit LSt.start (escCodes cs ++ 41 :: rest) = some (allCodeBytes cs, rest) := by
+  have := readLit_escCodes cs [] (41 :: rest)
+  simp only [LSt.start]
+  rw [this]
+  simp [readLit, litStep, litNormal]
+
+/-- the two-byte codes come back from the bytes (codes are uint16) -/
+theorem content_codes_roundtrip (cs : List Nat) (hb : ∀ c ∈ cs, c < 65536) :
+    codesOfBytes (allCodeBytes cs) = some cs := by
+  induction cs with
+  | nil => rfl
+  | cons c cs ih =>
+    have hc := hb c (by simp)
+    simp only [allCodeBytes, codeBytes, List.cons_append, List.nil_append, codesOfBytes]
+    rw [ih (fun x hx => hb x (by simp [hx]))]
+    simp only [Option.map_some]
+    congr 2
+    omega
+
+/-! ## (h) the TJ array: structure and accumulated pen error -/
+
+/-- Reading the array `WriteText` builds (§9.4.3) gives every glyph's code in order, each followed by the
+rounded adjustment of its own advance difference (none when the advance is the font's), and no leading
+adjustment — for every glyph list. -/
+theorem tj_read_build (upm : Int) (gs : List (Nat × Int)) :
+    tjRead (tjBuild upm gs) = (0, gs.map (tjSpec upm)) := by
+  have h1 := tjRead_go_lead upm [] gs
+  have h2 := tjRead_go upm [] gs
+  simp only [List.map_nil, List.nil_append] at h2
+  unfold tjBuild
+  rw [← h1, ← h2]
+
+/-- accumulated pen error of a glyph run in units of 1/(2000·upm) em: what the reader adds up
+(`-(adjustment)` thousandths per glyph) minus what the layout asked for (`dx/upm` em per glyph) -/
+def tjError (upm : Int) : List (Nat × Int) → Int
+  | [] => 0
+  | g :: gs => (2 * upm * (- (tjSpec upm g).2) - 2000 * g.2) + tjError upm gs
+
+/-- Error bound for a whole run: after `n` glyphs the pen is at most `n/2` thousandths of an em left and
+`3n/2` right of the laid-out position (the one-sided bias of `int(x+0.5)` for negative `x`). -/
+theorem tj_error_total (upm : Int) (hu : 0 < upm) (gs : List (Nat × Int)) :
+    - (upm * gs.length) ≤ tjError upm gs ∧ tjError upm gs ≤ 3 * upm * gs.length := by
+  induction gs with
+  | nil => simp [tjError]
+  | cons g gs ih =>
+    obtain ⟨c, dx⟩ := g
+    have e : ((List.length ((c, dx) :: gs) : Nat) : Int) = (gs.length : Int) + 1 := by simp
+    rw [e]
+    simp only [tjError, tjSpec]
+    by_cases hdx : dx = 0
+    · subst hdx
+      simp only [if_true]
+      constructor <;> nlinarith [ih.1, ih.2]
+    · simp only [hdx, if_false]
+      have d := tj_drift upm dx hu
+      constructor <;> nlinarith [ih.1, ih.2, d.1, d.2]
+
+/-- and without any adjusted glyph there is no error at all -/
+theorem tj_error_none (upm : Int) (gs : List (Nat × Int)) (h : ∀ g ∈ gs, g.2 = 0) : tjError upm gs = 0 := by
+  induction gs with
+  | nil => rfl
+  | cons g gs ih =>
+    have hg := h g (by simp)
+    simp only [tjError, tjSpec, hg, if_true]
+    rw [ih (fun x hx => h x (by simp [hx]))]
+    simp
+
+/-! ## (i) code → glyph: subsetter ∘ (CIDToGIDMap | subset program order) -/
+
+/-- the CIDToGIDMap stream reads back the glyph list, for every list of uint16 glyph IDs -/
+theorem cidmap_roundtrip (ids : List Nat) (hb : ∀ g ∈ ids, g < 65536) (cid : Nat) :
+    cidToGid (encodeCidMap ids) cid = ids[cid]? :=
+  cidToGid_encode ids hb cid
+
+/-- END TO END for glyph selection: after any history of `Get` calls, the code that was written into the
+content stream for glyph `g` selects exactly `g` of the source font — with subsetting (embedded program in
+`IDs` order), and without subsetting for TrueType fonts (CIDToGIDMap stream). -/
+theorem code_selects_glyph_partial (subset trueType : Bool) (hmode : subset = true ∨ trueType = true)
+    (h : List Nat) (hb : ∀ g ∈ h, g < 65536) (g c : Nat)
+    (hgc : (g, c) ∈ h.zip (Sub.new.run h).2) : codeGlyph subset trueType (Sub.new.run h).1.ids c = some g := by
+  obtain ⟨i, _, _, sp⟩ := run_spec h Sub.new inv_new hb
+  have hs := sp _ hgc
+  unfold codeGlyph
+  cases subset with
+  | true => simpa using hs
+  | false =>
+    have ht : trueType = true := by simpa using hmode
+    simp only [Bool.false_eq_true, if_false, ht, if_true]
+    rw [cidToGid_encode _ i.bound]
+    exact hs
+
+/-- the full statement (every embedding mode); it does NOT hold for the unchanged code -/
+def code_selects_glyph_statement : Prop :=
+  ∀ (subset trueType : Bool) (h : List Nat), (∀ g ∈ h, g < 65536) → ∀ g c,
+    (g, c) ∈ h.zip (Sub.new.run h).2 → codeGlyph subset trueType (Sub.new.run h).1.ids c = some g
+
+/-- Witness of the defect: an OpenType/CFF font embedded whole (SubsetFonts off). The first glyph used, say
+glyph 5, gets code 1; the CIDToGIDMap stream that would translate 1 ↦ 5 does not apply to a CIDFontType0, a
+conforming reader shows glyph 1. -/
+theorem cff_unsubsetted_witness :
+    (Sub.new.run [5]).2 = [1] ∧ codeGlyph false false (Sub.new.run [5]).1.ids 1 = some 1 := by decide
+
+theorem code_selects_glyph_statement_false : ¬ code_selects_glyph_statement := by
+  intro h
+  have := h false false [5] (by decide) 5 1 (by decide)
+  revert this
+  decide
+
+example : codeGlyph true false (Sub.new.run [5, 7, 5, 300]).1.ids 3 = some 300 := by decide
+
+/-! ## (b') W array of a font: advances → widths → W -/
+
+theorem w_font_lookup (upm : Int) (advs : List Int) (hne : advs ≠ []) (cid : Nat) (hc : cid < advs.length) :
+    lookupW (fontW upm advs).1 (fontW upm advs).2 cid = wWidth upm advs[cid] := by
+  have hne' : advs.map (wWidth upm) ≠ [] := by simpa using hne
+  have := w_cid_lookup (advs.map (wWidth upm)) hne' cid (by simpa using hc)
+  simpa [fontW] using this
+
+/-- the width a reader uses for a glyph is its advance in thousandths of an em rounded to nearest -/
+theorem w_font_error (upm : Int) (hu : 0 < upm) (advs : List Int) (ha : ∀ a ∈ advs, 0 ≤ a) (hne : advs ≠ [])
+    (cid : Nat) (hc : cid < advs.length) :
+    - upm < 2 * upm * lookupW (fontW upm advs).1 (fontW upm advs).2 cid - 2000 * advs[cid] ∧
+    2 * upm * lookupW (fontW upm advs).1 (fontW upm advs).2 cid - 2000 * advs[cid] ≤ upm := by
+  rw [w_font_lookup upm advs hne cid hc]
+  exact w_width_drift upm advs[cid] hu (ha _ (List.getElem_mem hc))
+
+example : tjRead (tjBuild 1000 [(1, 0), (2, -50), (3, 0), (4, 7)]) = (0, [(1, 0), (2, 49), (3, 0), (4, -7)]) := by decide
+example : readLit LSt.start (escCodes [10, 40, 0x5C29, 65] ++ 41 :: [32]) = some ([0, 10, 0, 40, 0x5C, 0x29, 0, 65], [32]) := by decide
+example : codeGlyph false true (Sub.new.run [5, 7, 5, 300]).1.ids 3 = some 300 := by decide
+
+/-! ## (j) soundness of the Lean-side verdict used for whole PDF files -/
+
+/-- verdict "ok" ⇒ for EVERY code of the font a §9.7.4.3 reader gets the rounded advance of the glyph and a
+strict §9.10.3 reader gets its character. -/
+theorem fontVerdict_sound (o : FontObs) (h : fontVerdict o = none) (k : Nat) (hk : k < o.advs.length) :
+    lookupW o.dw o.w k = wWidth o.upm (o.advs.getD k 0) ∧
+    ∀ u, o.unis.getD k none = some u → tuLookup o.ranges o.chars k = some u := by
+  have := List.find?_eq_none.1 h k (List.mem_range.2 hk)
+  simp only [Bool.not_eq_true, Bool.not_eq_false', codeOK, Bool.and_eq_true, beq_iff_eq] at this
+  refine ⟨this.1, ?_⟩
+  intro u hu
+  have h2 := this.2
+  rw [hu] at h2
+  simpa using h2
+
+/-- verdict `some k` ⇒ code `k` really is wrong (the verdict never alarms on a correct table) -/
+theorem fontVerdict_complete (o : FontObs) (k : Nat) (h : fontVerdict o = some k) : codeOK o k = false := by
+  have := List.find?_some h
+  simpa using this
+
+/-- the writer's own tables always pass: W built by `fontW`, ToUnicode built by `encodeTU` (codes 1…n carry
+the glyphs' runes, code 0 is `.notdef`) -/
+theorem fontVerdict_of_model (upm : Int) (advs : List Int) (us : List Nat) (hne : advs ≠ [])
+    (hlen : advs.length = us.length + 1) (hv : ∀ u ∈ us, validScalar u = true) :
+    fontVerdict ⟨upm, advs, none :: us.map some, (fontW upm advs).1, (fontW upm advs).2,
+      (encodeTU us).1, (encodeTU us).2⟩ = none := by
+  apply List.find?_eq_none.2
+  intro k hk
+  have hk' : k < advs.length := List.mem_range.1 hk
+  simp only [Bool.not_eq_true, Bool.not_eq_false', codeOK, Bool.and_eq_true, beq_iff_eq]
+  constructor
+  · rw [w_font_lookup upm advs hne k hk']
+    simp [List.getD, List.getElem?_eq_getElem hk']
+  · cases k with
+    | zero => simp
+    | succ j =>
+      have hj : j < us.length := by omega
+      have rt := tounicode_roundtrip us hv
+      have := congrArg (fun l => l[j]?) rt
+      simp only [decodeTU, List.getElem?_map, List.getElem?_range hj, Option.map_some] at this
+      rw [List.getElem?_eq_getElem hj] at this
+      simp only [Option.map_some, Option.some.injEq] at this
+      simp [List.getD, hj, this]
+
+/-! ## non-vacuity: the hypotheses of the theorems above are met by ordinary inputs -/
+
+example : (Sub.new.run [36, 72, 0, 36, 65535]).2 = [1, 2, 0, 1, 3] ∧ (Sub.new.run [36, 72, 0, 36, 65535]).1.ids = [0, 36, 72, 65535] := by decide
+example : ∀ g ∈ [36, 72, 0, 36, 65535], g < 65536 := by decide
+example : decodeW (encodeW [600, 500, 500, 500, 500, 500, 500, 300, 600, 600, 600, 600, 600, 0]).1
+    (encodeW [600, 500, 500, 500, 500, 500, 500, 300, 600, 600, 600, 600, 600, 0]).2 14
+    = [600, 500, 500, 500, 500, 500, 500, 300, 600, 600, 600, 600, 600, 0] :=
+  w_roundtrip _ (by decide)
+example : ∀ u ∈ [0x48, 0xFF, 0x100, 0x1F600], validScalar u = true := by decide
+example : (0 : Int) < 2048 ∧ - (2048 * 3) ≤ tjError 2048 [(1, -50), (2, 0), (3, 7)] ∧ tjError 2048 [(1, -50), (2, 0), (3, 7)] ≤ 3 * 2048 * 3 :=
+  ⟨by decide, (tj_error_total 2048 (by decide) [(1, -50), (2, 0), (3, 7)]).1, (tj_error_total 2048 (by decide) _).2⟩
+example : tjError 2048 [(1, -50), (2, 0), (3, 7)] = 4080 := by decide
+example : fontVerdict ⟨1000, [500, 600, 600], [none, some 65, some 66], 500, [WEnt.arr 1 [600, 600, 0]], [(1, 2, 65)], [(0, 0xFFFD)]⟩ = none := by decide
+example : fontVerdict ⟨1000, [500, 600, 700], [none, some 65, some 66], 500, [WEnt.arr 1 [600, 600, 0]], [(1, 2, 65)], [(0, 0xFFFD)]⟩ = some 2 := by decide
+example : scalePts 3 (toPathPts 2 10 20 [(⟨5, 0, 1, 2, false⟩, [(0, 0), (4, 7)])]) = scalePts 2 (toPathPts 3 10 20 [(⟨5, 0, 1, 2, false⟩, [(0, 0), (4, 7)])]) :=
+  toPath_scale_linear 2 3 10 20 _
 
 end C18
